@@ -26,8 +26,7 @@ EXPLANATION = (
     "round trips, injectivity/disjointness of the .0/.1 names, the exact edges_to_ignore list, the edge set of the expansion, the "
     "bijection between routes of G and of expand G with visit counts, and ignore-list membership. Equality of status/objective is "
     "then definitional (node mode IS edge mode on the expansion); it is sampled by E2 on the explicit expansion built from the "
-    "model's output, and for the k-classes the two LPs handed to HiGHS are read back and compared as sets of columns/rows (E1). Refuted (open finding remove_empty_drops_single_node): get_solution(remove_empty_paths=True) in node mode "
-    "filters the CONDENSED paths with len > 1 and so drops a route that visits a single node together with its weight.")
+    "model's output, and for the k-classes the two LPs handed to HiGHS are read back and compared as sets of columns/rows (E1). get_solution(remove_empty=True) in node mode filters on the INTERNAL route since /repo 7b35658 (C11_full_statement_remove_empty is a theorem of the current model; the old filter on condensed routes is kept as ne_node_solution_old with its refutation); the filter functions of the six k-classes are tied to the model by E3 (kind glue_solution). Open finding: MinFlowDecompCycles node mode rejects additional starts/ends.")
 ASSUMPTIONS = [
     "node names are strings over code points 0..255 (one Coq ascii per character)",
     "attribute values are opaque to the expansion; the harness uses integers in E3",
@@ -106,6 +105,9 @@ class Rd:
 
 
 # ----------------------------------------------------------------------------- generators
+GLUE = [("kFlowDecomp", "paths", "_remove_empty_paths"), ("kLeastAbsErrors", "paths", "_remove_empty_paths"), ("kMinPathError", "paths", "_remove_empty_paths"),
+        ("kFlowDecompCycles", "walks", "_remove_empty_walks"), ("kLeastAbsErrorsCycles", "walks", "_remove_empty_walks"),
+        ("kMinPathErrorCycles", "walks", "_remove_empty_walks")]
 ADV = ["a", "a.0", "a.1", "a.0.0", "a.0.1", "a.1.0", ".", ".0", ".1", "..0", "0", "1", "", "x.y", "b.", "b..", "0.0", "1.1", "a.10", "source", "sink"]
 
 
@@ -320,6 +322,21 @@ def e3_cases(ctx, n, stream, adversarial):
             return l
         add("ignore", "ne_ignore " + common.toks(wg, w_edges(base), len(ign_elems), [w_elem(e) for e in ign_elems]),
             impl_call(do_ign), {**ginfo, "ignore": ign_elems})
+        # --- glue: get_solution(remove_empty) of the k-models in node mode (condense, then _remove_empty_* as the code has it)
+        internal = [expand_names(r) for r in routes] + [[], expand_names([nodes[0]])]
+        rng.shuffle(internal)
+        ws = [rng.randint(0, 9) for _ in internal]
+        cname, rk, fn = rng.choice(GLUE)
+        rm = rng.random() < 0.8
+        def do_glue():
+            cond = ne.get_condensed_paths(internal)
+            sol = {"_%s_internal" % rk: [list(p) for p in internal], rk: cond, "weights": list(ws), "slacks": list(ws)}
+            if rm:
+                sol = getattr(getattr(fp, cname), fn)(None, sol)
+            return [[list(p), w] for p, w in zip(sol[rk], sol["weights"])]
+        add("glue_solution", "ne_nodesol " + common.toks(wg, w_str(gsrc), w_str(gsnk), len(internal), [w_strs(p) for p in internal], len(ws), ws, rm),
+            impl_call(do_glue), {**ginfo, "class": cname, "internal": internal, "weights": ws, "remove_empty": rm},
+            prop=("glue", internal, ws, rm))
     outs = ctx.model.run(reqs)
     for req, out, (kind, impl, info, prop) in zip(reqs, outs, meta):
         rd = Rd(out)
@@ -341,6 +358,8 @@ def e3_cases(ctx, n, stream, adversarial):
             model = ("OK", rd.list(lambda: [rd.str(), rd.attrs()]))
         elif kind == "ignore":
             model = ("OK", rd.list(rd.edge))
+        elif kind == "glue_solution":
+            model = ("OK", rd.list(lambda: [rd.list(rd.str), rd.int()]))
         impl_cmp = impl
         if kind == "cgraph" and impl[0] == "OK":
             impl_cmp = ("OK", impl[1][0])
@@ -419,6 +438,12 @@ def direct_property(kind, impl, prop, info):
                 if [a[:-2] for a, b in x] != list(c) or any(a[:-2] != b[:-2] or not a.endswith(".0") or not b.endswith(".1") for a, b in x):
                     return f"node constraint {c} does not condense back: {x}"
         return None
+    if kind == "glue_solution":
+        _, internal, ws, rm = prop
+        want = [[[x[:-2] for x in p[0::2]], w] for p, w in zip(internal, ws) if (len(p) > 1 or not rm)]
+        if impl[1] != want:
+            return f"node-mode solution (remove_empty={rm}) of internal routes {internal} with weights {ws} is {impl[1]}, expected {want}"
+        return None
     if kind == "cgraph":
         G = prop[1]
         nodes, edges = impl[1]
@@ -448,7 +473,6 @@ CLASSES = {
 }
 REMOVE_EMPTY = {"kFlowDecomp": "remove_empty_paths", "kLeastAbsErrors": "remove_empty_paths", "kMinPathError": "remove_empty_paths",
                 "kFlowDecompCycles": "remove_empty_walks", "kLeastAbsErrorsCycles": "remove_empty_walks", "kMinPathErrorCycles": "remove_empty_walks"}
-KEY_REMOVE_EMPTY = "remove_empty_drops_single_node"
 KEY_MFDC_STARTS = "MinFlowDecompCycles:node:additional_starts_ends:ValueError"
 
 
@@ -775,18 +799,11 @@ def _e2_compare(cls, G, inst, nobs, eobs, issues):
         if list(Hn.nodes) != list(G.nodes) or list(Hn.edges) != list(G.edges):
             issues.append(("corrected graph is not expressed on the caller's nodes/edges", None)); return
         return
-    def lost_single(n_node, n_exp):
-        """the node-mode answer is short by exactly the single-node routes of its own unfiltered solution"""
-        singles = sum(1 for r in nobs.get("full_routes", []) if len(r) == 1)
-        return KEY_REMOVE_EMPTY if (singles > 0 and n_node + singles == n_exp) else None
     for key in ("weights", "slacks"):
         if key in nobs and len(nobs[key]) != nobs["n"]:
             issues.append((f"{key} has {len(nobs[key])} entries for {nobs['n']} routes", None)); return
     if nobs["n"] != eobs["n"]:
-        key = lost_single(nobs["n"], eobs["n"])
-        issues.append((f"number of routes of get_solution() differs: node mode {nobs['n']}, explicit expansion {eobs['n']}", key))
-        if key is None:
-            return
+        issues.append((f"number of routes of get_solution() differs: node mode {nobs['n']}, explicit expansion {eobs['n']}", None)); return
     if ("objective" in nobs) != ("objective" in eobs) or ("objective" in nobs and not close(nobs["objective"], eobs["objective"])):
         issues.append((f"objective differs: node mode {nobs.get('objective')}, explicit expansion {eobs.get('objective')}", None)); return
     for rs in ("routes", "full_routes", "re_routes"):
@@ -812,7 +829,7 @@ def _e2_compare(cls, G, inst, nobs, eobs, issues):
                 issues.append((f"{key} has {len(nobs[key])} entries for {len(nobs['re_routes'])} routes", None)); return
         if len(nobs["re_routes"]) != len(eobs["re_routes"]):
             issues.append((f"get_solution({REMOVE_EMPTY[cls]}=True) keeps {len(nobs['re_routes'])} routes in node mode but {len(eobs['re_routes'])} on the "
-                           f"explicit expansion", lost_single(len(nobs["re_routes"]), len(eobs["re_routes"]))))
+                           f"explicit expansion", None))
     return
 
 
